@@ -1,6 +1,7 @@
 import S3V.Thm.XmlWf
 import S3V.Thm.XmlEscape
 import S3V.Thm.XmlUtf8
+import S3V.Thm.XmlAttr
 /-!
 Round trip of the generic XML codec: `decode s (encode s v ++ stop …) = ok (v, stop …)` for every well-formed schema and
 every value of it in normal form, by mutual structural induction on the schema.
@@ -15,7 +16,8 @@ mutual
   Normal form = the values that have a restXml representation of their own:
   * a list member written flattened is not the empty list (`Some([])` and `[]` write nothing at all, which reads
     back as `None` / `MissingField`);
-  * a member is `absent` only if it is optional.
+  * a member is `absent` only if it is optional;
+  * a member bound to an attribute holds a string.
   Strings are Rust `String`s, i.e. valid UTF-8. Integers are in range. A timestamp is its own canonical rendering. -/
   def Fits (X : Ext) : Sch → Val → Prop
     | .str, .str b | .enm, .str b => utf8Valid b = true
@@ -33,6 +35,7 @@ mutual
         | .single, .one v => Fits X s v
         | .wrapped _, .many vs => ∀ v ∈ vs, Fits X s v
         | .flat, .many vs => vs ≠ [] ∧ ∀ v ∈ vs, Fits X s v
+        | .attr, .one (.str b) => utf8Valid b = true
         | _, .absent => pres = .opt
         | _, _ => False) ∧ FitsFields X rest fvs
     | _, _ => False
@@ -64,6 +67,10 @@ theorem fitsFields_wrapped (X : Ext) (t m : Bytes) (p : Pres) (s : Sch) (r : Fld
 
 theorem fitsFields_flat (X : Ext) (t : Bytes) (p : Pres) (s : Sch) (r : Flds) (vs : List Val) (fvs : List FVal) :
     FitsFields X (.cons t p .flat s r) (.many vs :: fvs) = ((vs ≠ [] ∧ ∀ v ∈ vs, Fits X s v) ∧ FitsFields X r fvs) := by
+  simp only [FitsFields]
+
+theorem fitsFields_attr (X : Ext) (t : Bytes) (p : Pres) (s : Sch) (r : Flds) (b : Bytes) (fvs : List FVal) :
+    FitsFields X (.cons t p .attr s r) (.one (.str b) :: fvs) = (utf8Valid b = true ∧ FitsFields X r fvs) := by
   simp only [FitsFields]
 
 /-! ### helpers -/
@@ -107,9 +114,9 @@ theorem distinct_append_cons {a : List Bytes} {t : Bytes} {b : List Bytes} (h : 
 /-- what one member contributes (the inline `match` of `encodeFields`) -/
 def encField (tag : Bytes) (shape : Shape) (s : Sch) (fv : FVal) : List Ev :=
   match shape, fv with
-  | .single, .one v => elem tag (encode s v)
-  | .wrapped m, .many vs => elem tag (vs.flatMap fun v => elem m (encode s v))
-  | .flat, .many vs => vs.flatMap fun v => elem tag (encode s v)
+  | .single, .one v => elemA tag (encAttrs s v) (encode s v)
+  | .wrapped m, .many vs => elem tag (vs.flatMap fun v => elemA m (encAttrs s v) (encode s v))
+  | .flat, .many vs => vs.flatMap fun v => elemA tag (encAttrs s v) (encode s v)
   | _, _ => []
 
 theorem encodeFields_cons (tag : Bytes) (p : Pres) (shape : Shape) (s : Sch) (rest : Flds) (fv : FVal) (fvs : List FVal) :
@@ -118,6 +125,9 @@ theorem encodeFields_cons (tag : Bytes) (p : Pres) (shape : Shape) (s : Sch) (re
 
 theorem elem_length (tag : Bytes) (inner : List Ev) : (elem tag inner).length = inner.length + 2 := by
   simp [elem]
+
+theorem elemA_length (tag a : Bytes) (inner : List Ev) : (elemA tag a inner).length = inner.length + 2 := by
+  simp [elemA]
 
 /-! ### cursor lemmas -/
 
@@ -130,46 +140,46 @@ theorem skipText_stop (n : Bytes) (r : List Ev) : skipText (.stop n :: r) = .sto
 theorem expectEnd_stop (n : Bytes) (r : List Ev) : expectEnd n (.stop n :: r) = .ok r := by
   simp [expectEnd, skipText]
 
-theorem expectStart_start (n a : Bytes) (r : List Ev) : expectStart n (.start n a :: r) = .ok r := by
+theorem expectStart_start (n a : Bytes) (r : List Ev) : expectStart n (.start n a :: r) = .ok (a, r) := by
   simp [expectStart, skipText]
 
-theorem forEach_stop {α : Type} (f : Bytes → List Ev → α → R α) (fuel : Nat) (n : Bytes) (r : List Ev) (acc : α) :
-    forEach f (fuel + 1) (.stop n :: r) acc = .ok (acc, .stop n :: r) := by
+theorem forEach_stop {α : Type} (f : Bytes → Bytes → List Ev → α → R α) (fuel : Nat) (n : Bytes) (r : List Ev)
+    (acc : α) : forEach f (fuel + 1) (.stop n :: r) acc = .ok (acc, .stop n :: r) := by
   simp [forEach, skipText]
 
-theorem forEach_step {α : Type} (f : Bytes → List Ev → α → R α) (fuel : Nat) (n a : Bytes) (r r' : List Ev)
-    (acc acc' : α) (hf : f n r acc = .ok (acc', .stop n :: r')) :
+theorem forEach_step {α : Type} (f : Bytes → Bytes → List Ev → α → R α) (fuel : Nat) (n a : Bytes)
+    (r r' : List Ev) (acc acc' : α) (hf : f n a r acc = .ok (acc', .stop n :: r')) :
     forEach f (fuel + 1) (.start n a :: r) acc = forEach f fuel r' acc' := by
   simp [forEach, skipText, hf, expectEnd]
 
 /-! ### dispatch of an element name to its member -/
 
 theorem decodeField_ne (X : Ext) {name tag : Bytes} (h : name ≠ tag) (pres : Pres) (shape : Shape) (s : Sch)
-    (rest : Flds) (evs : List Ev) (slot : FVal) (accRest : List FVal) :
-    decodeField X (.cons tag pres shape s rest) name evs (slot :: accRest)
-      = (match decodeField X rest name evs accRest with
+    (rest : Flds) (a : Bytes) (evs : List Ev) (slot : FVal) (accRest : List FVal) :
+    decodeField X (.cons tag pres shape s rest) name a evs (slot :: accRest)
+      = (match decodeField X rest name a evs accRest with
          | .error e => .error e
          | .ok (acc', r) => .ok (slot :: acc', r)) := by
-  cases shape <;> simp only [decodeField, if_neg h] <;> cases decodeField X rest name evs accRest <;> rfl
+  cases shape <;> simp only [decodeField, if_neg h] <;> cases decodeField X rest name a evs accRest <;> rfl
 
 theorem decodeField_append (X : Ext) (tag : Bytes) (pres : Pres) (shape : Shape) (s : Sch) (Rf : Flds)
-    (slot : FVal) (B : List FVal) (evs : List Ev) :
+    (slot : FVal) (B : List FVal) (a : Bytes) (evs : List Ev) :
     ∀ (P : Flds) (A : List FVal), tag ∉ P.tags → A.length = P.length →
-      decodeField X (P.append (.cons tag pres shape s Rf)) tag evs (A ++ slot :: B)
-        = (match decodeField X (.cons tag pres shape s Rf) tag evs (slot :: B) with
+      decodeField X (P.append (.cons tag pres shape s Rf)) tag a evs (A ++ slot :: B)
+        = (match decodeField X (.cons tag pres shape s Rf) tag a evs (slot :: B) with
            | .error e => .error e
            | .ok (acc', r) => .ok (A ++ acc', r))
   | .nil, A, _, hl => by
     have : A = [] := by simpa [Flds.length] using hl
     subst this
     simp only [Flds.append, List.nil_append]
-    cases decodeField X (.cons tag pres shape s Rf) tag evs (slot :: B) with
+    cases decodeField X (.cons tag pres shape s Rf) tag a evs (slot :: B) with
     | error e => rfl
     | ok p => rfl
   | .cons t' p' sh' s' P', A, hnot, hl => by
     cases A with
     | nil => simp [Flds.length] at hl
-    | cons a A' =>
+    | cons a0 A' =>
       have hne : tag ≠ t' := by
         intro h; apply hnot; simp [Flds.tags, h]
       have hnot' : tag ∉ P'.tags := by
@@ -177,50 +187,51 @@ theorem decodeField_append (X : Ext) (tag : Bytes) (pres : Pres) (shape : Shape)
       have hl' : A'.length = P'.length := by simpa [Flds.length] using hl
       simp only [Flds.append, List.cons_append]
       rw [decodeField_ne X hne]
-      rw [decodeField_append X tag pres shape s Rf slot B evs P' A' hnot' hl']
-      cases decodeField X (.cons tag pres shape s Rf) tag evs (slot :: B) with
+      rw [decodeField_append X tag pres shape s Rf slot B a evs P' A' hnot' hl']
+      cases decodeField X (.cons tag pres shape s Rf) tag a evs (slot :: B) with
       | error e => rfl
       | ok p => rfl
 
 
 theorem decodeField_at (X : Ext) {tag : Bytes} {pres : Pres} {shape : Shape} {s : Sch} {Rf : Flds}
-    {slot : FVal} {B : List FVal} {evs : List Ev} {acc' : List FVal} {r : List Ev}
+    {slot : FVal} {B : List FVal} {a : Bytes} {evs : List Ev} {acc' : List FVal} {r : List Ev}
     (P : Flds) (A : List FVal) (hnot : tag ∉ P.tags) (hl : A.length = P.length)
-    (hhead : decodeField X (.cons tag pres shape s Rf) tag evs (slot :: B) = .ok (acc', r)) :
-    decodeField X (P.append (.cons tag pres shape s Rf)) tag evs (A ++ slot :: B) = .ok (A ++ acc', r) := by
-  rw [decodeField_append X tag pres shape s Rf slot B evs P A hnot hl, hhead]
+    (hhead : decodeField X (.cons tag pres shape s Rf) tag a evs (slot :: B) = .ok (acc', r)) :
+    decodeField X (P.append (.cons tag pres shape s Rf)) tag a evs (A ++ slot :: B) = .ok (A ++ acc', r) := by
+  rw [decodeField_append X tag pres shape s Rf slot B a evs P A hnot hl, hhead]
 
 theorem decodeField_single_ok (X : Ext) {tag : Bytes} {pres : Pres} {s : Sch} {Rf : Flds} {B : List FVal}
-    {evs r : List Ev} {v : Val} (h : decode X s evs = .ok (v, r)) :
-    decodeField X (.cons tag pres .single s Rf) tag evs (.absent :: B) = .ok (.one v :: B, r) := by
+    {a : Bytes} {evs r : List Ev} {v : Val} (h : decode X s a evs = .ok (v, r)) :
+    decodeField X (.cons tag pres .single s Rf) tag a evs (.absent :: B) = .ok (.one v :: B, r) := by
   simp [decodeField, FVal.isAbsent, h]
 
 theorem decodeField_flat_ok (X : Ext) {tag : Bytes} {pres : Pres} {s : Sch} {Rf : Flds} {slot : FVal} {B : List FVal}
-    {evs r : List Ev} {v : Val} (h : decode X s evs = .ok (v, r)) :
-    decodeField X (.cons tag pres .flat s Rf) tag evs (slot :: B) = .ok (slot.push v :: B, r) := by
+    {a : Bytes} {evs r : List Ev} {v : Val} (h : decode X s a evs = .ok (v, r)) :
+    decodeField X (.cons tag pres .flat s Rf) tag a evs (slot :: B) = .ok (slot.push v :: B, r) := by
   simp [decodeField, h]
 
 theorem decodeField_wrapped_ok (X : Ext) {tag m : Bytes} {pres : Pres} {s : Sch} {Rf : Flds} {B : List FVal}
-    {evs r : List Ev} {l : List Val}
-    (h : forEach (listItem (fun evs => decode X s evs) m) (evs.length + 1) evs [] = .ok (l, r)) :
-    decodeField X (.cons tag pres (.wrapped m) s Rf) tag evs (.absent :: B) = .ok (.many l :: B, r) := by
+    {a : Bytes} {evs r : List Ev} {l : List Val}
+    (h : forEach (listItem (fun a evs => decode X s a evs) m) (evs.length + 1) evs [] = .ok (l, r)) :
+    decodeField X (.cons tag pres (.wrapped m) s Rf) tag a evs (.absent :: B) = .ok (.many l :: B, r) := by
   simp [decodeField, FVal.isAbsent, h]
 
 /-! ### lists -/
 
 theorem flatMap_elem_length (tag : Bytes) (s : Sch) (vs : List Val) :
-    2 * vs.length ≤ (vs.flatMap fun v => elem tag (encode s v)).length := by
+    2 * vs.length ≤ (vs.flatMap fun v => elemA tag (encAttrs s v) (encode s v)).length := by
   induction vs with
   | nil => simp
-  | cons v vs ih => simp only [List.flatMap_cons, List.length_append, elem_length, List.length_cons]; omega
+  | cons v vs ih => simp only [List.flatMap_cons, List.length_append, elemA_length, List.length_cons]; omega
 
 /-- `d.list_content(m)` reads back what `s.list(_, m, iter)` wrote -/
 theorem forEach_listItem (X : Ext) (s : Sch) (m : Bytes) (tag : Bytes) (more : List Ev) :
     ∀ (vs : List Val),
-      (∀ v ∈ vs, ∀ n rest, decode X s (encode s v ++ .stop n :: rest) = .ok (v, .stop n :: rest)) →
-      ∀ (l : List Val) (fuel : Nat), (vs.flatMap fun v => elem m (encode s v)).length < fuel →
-        forEach (listItem (fun evs => decode X s evs) m) fuel
-          ((vs.flatMap fun v => elem m (encode s v)) ++ .stop tag :: more) l = .ok (l ++ vs, .stop tag :: more)
+      (∀ v ∈ vs, ∀ n rest, decode X s (encAttrs s v) (encode s v ++ .stop n :: rest) = .ok (v, .stop n :: rest)) →
+      ∀ (l : List Val) (fuel : Nat), (vs.flatMap fun v => elemA m (encAttrs s v) (encode s v)).length < fuel →
+        forEach (listItem (fun a evs => decode X s a evs) m) fuel
+          ((vs.flatMap fun v => elemA m (encAttrs s v) (encode s v)) ++ .stop tag :: more) l
+          = .ok (l ++ vs, .stop tag :: more)
   | [], _, l, fuel, hfuel => by
     cases fuel with
     | zero => simp at hfuel
@@ -229,15 +240,15 @@ theorem forEach_listItem (X : Ext) (s : Sch) (m : Bytes) (tag : Bytes) (more : L
     cases fuel with
     | zero => simp at hfuel
     | succ k =>
-      simp only [List.flatMap_cons, elem, List.cons_append, List.append_assoc, List.nil_append] at hfuel ⊢
-      have hitem : listItem (fun evs => decode X s evs) m m
-          (encode s v ++ .stop m :: ((vs.flatMap fun v => .start m [] :: (encode s v ++ [.stop m])) ++ .stop tag :: more)) l
-          = .ok (l ++ [v], .stop m :: ((vs.flatMap fun v => .start m [] :: (encode s v ++ [.stop m])) ++ .stop tag :: more)) := by
+      simp only [List.flatMap_cons, elemA, List.cons_append, List.append_assoc, List.nil_append] at hfuel ⊢
+      have hitem : listItem (fun a evs => decode X s a evs) m m (encAttrs s v)
+          (encode s v ++ .stop m :: ((vs.flatMap fun v => .start m (encAttrs s v) :: (encode s v ++ [.stop m])) ++ .stop tag :: more)) l
+          = .ok (l ++ [v], .stop m :: ((vs.flatMap fun v => .start m (encAttrs s v) :: (encode s v ++ [.stop m])) ++ .stop tag :: more)) := by
         simp [listItem, hdec v (by simp)]
-      rw [forEach_step _ k m [] _ _ l (l ++ [v]) hitem]
+      rw [forEach_step _ k m (encAttrs s v) _ _ l (l ++ [v]) hitem]
       have ih := forEach_listItem X s m tag more vs (fun v hv => hdec v (by simp [hv])) (l ++ [v]) k
-        (by simp only [elem, List.cons_append] at *; simp only [List.length_cons, List.length_append] at hfuel; omega)
-      simp only [elem, List.cons_append] at ih
+        (by simp only [elemA, List.cons_append] at *; simp only [List.length_cons, List.length_append] at hfuel; omega)
+      simp only [elemA, List.cons_append] at ih
       rw [ih]; simp
 
 /-- pushing the items of a flattened list one by one -/
@@ -257,33 +268,29 @@ theorem pushAll_absent_cons (v : Val) (vs : List Val) : pushAll .absent (v :: vs
   exact h vs [v]
 
 /-- the elements of a flattened list are read back one by one into the member's slot -/
-theorem forEach_flat (f : Bytes → List Ev → List FVal → R (List FVal)) (s : Sch) (tag : Bytes)
+theorem forEach_flat (f : Bytes → Bytes → List Ev → List FVal → R (List FVal)) (s : Sch) (tag : Bytes)
     (A B : List FVal) (more : List Ev) :
     ∀ (vs : List Val),
-      (∀ v ∈ vs, ∀ slot rest, f tag (encode s v ++ .stop tag :: rest) (A ++ slot :: B)
+      (∀ v ∈ vs, ∀ slot rest, f tag (encAttrs s v) (encode s v ++ .stop tag :: rest) (A ++ slot :: B)
           = .ok (A ++ slot.push v :: B, .stop tag :: rest)) →
       ∀ (slot : FVal) (fuel : Nat), vs.length ≤ fuel →
-        forEach f fuel ((vs.flatMap fun v => elem tag (encode s v)) ++ more) (A ++ slot :: B)
+        forEach f fuel ((vs.flatMap fun v => elemA tag (encAttrs s v) (encode s v)) ++ more) (A ++ slot :: B)
           = forEach f (fuel - vs.length) more (A ++ pushAll slot vs :: B)
   | [], _, slot, fuel, _ => by simp [pushAll]
   | v :: vs, hf, slot, fuel, hfuel => by
     cases fuel with
     | zero => simp at hfuel
     | succ k =>
-      simp only [List.flatMap_cons, elem, List.cons_append, List.append_assoc, List.nil_append]
-      rw [forEach_step f k tag [] _ _ _ _ (hf v (by simp) slot _)]
+      simp only [List.flatMap_cons, elemA, List.cons_append, List.append_assoc, List.nil_append]
+      rw [forEach_step f k tag (encAttrs s v) _ _ _ _ (hf v (by simp) slot _)]
       have ih := forEach_flat f s tag A B more vs (fun v hv => hf v (by simp [hv])) (slot.push v) k
         (by simp at hfuel; omega)
-      simp only [elem, List.cons_append] at ih
+      simp only [elemA, List.cons_append] at ih
       rw [ih]
       simp [pushAll]
 
 
 /-! ### the `Ok(Self { … })` expression on a value that fits -/
-
-theorem emptyAcc_length : ∀ fs : Flds, fs.emptyAcc.length = fs.length
-  | .nil => rfl
-  | .cons _ _ _ _ r => by simp [Flds.emptyAcc, Flds.length, emptyAcc_length r]
 
 theorem finish_fits (X : Ext) : ∀ (fs : Flds) (fvs : List FVal), FitsFields X fs fvs → fs.finish fvs = .ok fvs
   | .nil, [], _ => by simp [Flds.finish]
@@ -301,6 +308,103 @@ theorem finish_fits (X : Ext) : ∀ (fs : Flds) (fvs : List FVal), FitsFields X 
     | one v => cases pres <;> rfl
     | many vs => cases pres <;> rfl
 
+/-! ### the `let` block on the start tag the serialiser wrote -/
+
+/-- the slots a struct deserialiser starts with on the start tag written for `fvs`: a member bound to an attribute
+is already read, every other member is still `None` -/
+def initSlots : Flds → List FVal → List FVal
+  | .cons _ _ sh _ rest, fv :: fvs => (match sh with | .attr => fv | _ => .absent) :: initSlots rest fvs
+  | _, _ => []
+
+theorem initSlot_absent (shape : Shape) :
+    (match shape with | .attr => FVal.absent | _ => FVal.absent) = FVal.absent := by cases shape <;> rfl
+
+theorem Flds.wf_append_right : ∀ (P S : Flds), (P.append S).wf = true → S.wf = true
+  | .nil, _, h => h
+  | .cons _ _ _ _ r, S, h => by
+    simp only [Flds.append, Flds.wf, Bool.and_eq_true] at h
+    exact Flds.wf_append_right r S h.2.1
+
+theorem distinct_append_right : ∀ (a b : List Bytes), distinct (a ++ b) = true → distinct b = true
+  | [], _, h => h
+  | _ :: xs, b, h => by
+    simp only [List.cons_append, distinct, Bool.and_eq_true] at h
+    exact distinct_append_right xs b h.2
+
+theorem distinct_cons_not_mem {t : Bytes} {r : List Bytes} (h : distinct (t :: r) = true) : t ∉ r := by
+  simp only [distinct, Bool.and_eq_true, Bool.not_eq_true', List.contains_eq_mem, decide_eq_false_iff_not] at h
+  exact h.1
+
+theorem attrSlot_append (t : Bytes) (S : Flds) (fvs : List FVal) : ∀ (P : Flds) (A : List FVal), t ∉ P.tags →
+    A.length = P.length → attrSlot (P.append S) (A ++ fvs) t = attrSlot S fvs t
+  | .nil, A, _, hl => by
+    have : A = [] := by simpa [Flds.length] using hl
+    subst this; rfl
+  | .cons t' p' sh' s' P', A, hnot, hl => by
+    cases A with
+    | nil => simp [Flds.length] at hl
+    | cons a0 A' =>
+      have hne : t' ≠ t := fun e => hnot (by simp [Flds.tags, e])
+      have hnot' : t ∉ P'.tags := fun e => hnot (by simp [Flds.tags, e])
+      have ih := attrSlot_append t S fvs P' A' hnot' (by simpa [Flds.length] using hl)
+      simp only [Flds.append, List.cons_append]
+      conv => lhs; unfold attrSlot
+      split
+      · rw [if_neg hne]; exact ih
+      · exact ih
+
+/-- **the `let` block reads the attributes the serialiser wrote**: on the start tag written for the struct value
+`FVS` (`start_of`: `attrPairs`), `d.attribute` yields, for every member bound to an attribute, the string that was
+written — so the deserialiser starts with these members read and every other member `None` -/
+theorem initAcc_written (X : Ext) (ps0 : List (Bytes × Bytes)) (h0 : NsPairs ps0) (FS : Flds) (FVS : List FVal)
+    (hwfF : FS.wf = true) (hd : distinct FS.tags = true) :
+    ∀ (S P : Flds) (fvs A : List FVal), FS = P.append S → FVS = A ++ fvs → A.length = P.length →
+      FitsFields X S fvs → S.initAcc (attrsOf ps0 ++ attrsOf (attrPairs FS FVS)) = .ok (initSlots S fvs)
+  | .nil, _, fvs, _, _, _, _, hfit => by
+    cases fvs with
+    | nil => simp [Flds.initAcc, initSlots]
+    | cons _ _ => simp [FitsFields] at hfit
+  | .cons _ _ _ _ _, _, [], _, _, _, _, hfit => by simp [FitsFields] at hfit
+  | .cons tag pres sh s Rf, P, fv :: fvs', A, hFS, hFVS, hl, hfit => by
+    simp only [FitsFields] at hfit
+    have ih := initAcc_written X ps0 h0 FS FVS hwfF hd Rf (P.append (.cons tag pres sh s .nil)) fvs' (A ++ [fv])
+      (by rw [hFS, Flds.append_assoc]; rfl) (by simp [hFVS]) (by simp [Flds.length_append, Flds.length, hl]) hfit.2
+    cases sh with
+    | attr =>
+      have hdt : distinct (P.tags ++ tag :: Rf.tags) = true := by
+        have := hd; rw [hFS, Flds.tags_append] at this; simpa [Flds.tags] using this
+      have htagP : tag ∉ P.tags := distinct_append_cons hdt
+      have htagR : tag ∉ Rf.tags := distinct_cons_not_mem (distinct_append_right _ _ hdt)
+      have hwfS : (Flds.cons tag pres .attr s Rf).wf = true := Flds.wf_append_right P _ (hFS ▸ hwfF)
+      have hkey : attrKeyOk tag = true := by
+        simp only [Flds.wf, Bool.and_eq_true] at hwfS; exact hwfS.2.2
+      have hslot : attrSlot FS FVS tag = attrSlot (.cons tag pres .attr s Rf) (fv :: fvs') tag := by
+        rw [hFS, hFVS]; exact attrSlot_append tag _ _ P A htagP hl
+      obtain ⟨hsome, hnone⟩ := attrValue_written ps0 h0 FS FVS hwfF tag (attrKeyOk_plain hkey).2.1
+        (attrKeyOk_plain hkey).2.2
+      simp only [Flds.initAcc, ih, initSlots]
+      cases fv with
+      | absent =>
+        have : attrSlot FS FVS tag = none := by
+          rw [hslot]; simp only [attrSlot]; exact attrSlot_not_mem tag Rf fvs' htagR
+        rw [hnone this]
+      | one v =>
+        cases v with
+        | str b =>
+          have hv : utf8Valid b = true := by simpa using hfit.1
+          have : attrSlot FS FVS tag = some (escapeAttr b) := by
+            rw [hslot]; simp [attrSlot]
+          rw [hsome b this hv]
+        | int _ => simp at hfit
+        | bool _ => simp at hfit
+        | ts _ => simp at hfit
+        | struct _ => simp at hfit
+        | union _ _ => simp at hfit
+      | many _ => simp at hfit
+    | single => simp only [Flds.initAcc, ih, initSlots]
+    | wrapped m => simp only [Flds.initAcc, ih, initSlots]
+    | flat => simp only [Flds.initAcc, ih, initSlots]
+
 /-! ### scalars -/
 
 theorem decodeStr_escape {b : Bytes} (h : utf8Valid (escape b) = true) : decodeStr (escape b) = .ok b := by
@@ -309,12 +413,12 @@ theorem decodeStr_escape {b : Bytes} (h : utf8Valid (escape b) = true) : decodeS
 theorem decodeStr_escapeText {b : Bytes} (h : utf8Valid b = true) : decodeStr (escapeText b) = .ok b := by
   simp [decodeStr, utf8Valid_escapeText h, unescape_escapeText]
 
-theorem decode_scalar_ok (X : Ext) (s : Sch) {evs r : List Ev} {raw : Bytes} {v : Val}
+theorem decode_scalar_ok (X : Ext) (s : Sch) {a : Bytes} {evs r : List Ev} {raw : Bytes} {v : Val}
     (hs : isScalar s = true) (htext : textOf evs = .ok (raw, r)) (hval : decodeScalarText X s raw = .ok v) :
-    decode X s evs = .ok (v, r) := by
+    decode X s a evs = .ok (v, r) := by
   cases s <;> first
     | (simp [isScalar] at hs; done)
-    | (rw [decode.eq_3 X _ _ (by intros; contradiction) (by intros; contradiction)]; simp [htext, hval])
+    | (rw [decode.eq_3 X _ _ _ (by intros; contradiction) (by intros; contradiction)]; simp [htext, hval])
 
 /-- `Deserializer::text` at an end tag: the empty text -/
 theorem textOf_stop (n : Bytes) (rest : List Ev) : textOf (.stop n :: rest) = .ok ([], .stop n :: rest) := by
@@ -330,9 +434,9 @@ theorem textOf_text_stop (raw n : Bytes) (rest : List Ev) (hcr : ∀ c ∈ raw, 
     textOf (.text raw :: .stop n :: rest) = .ok (raw, .stop n :: rest) := by
   rw [textOf_text_stop', normText_of_noCr hcr]
 
-theorem decode_scalar_text (X : Ext) (s : Sch) (raw : Bytes) (v : Val) (n : Bytes) (rest : List Ev)
+theorem decode_scalar_text (X : Ext) (s : Sch) (a raw : Bytes) (v : Val) (n : Bytes) (rest : List Ev)
     (hs : isScalar s = true) (hcr : ∀ c ∈ raw, c ≠ 13) (hraw : decodeScalarText X s raw = .ok v) :
-    decode X s (textEv raw ++ .stop n :: rest) = .ok (v, .stop n :: rest) := by
+    decode X s a (textEv raw ++ .stop n :: rest) = .ok (v, .stop n :: rest) := by
   by_cases hr : raw = []
   · subst hr
     exact decode_scalar_ok X s hs (by simp [textEv, textOf_stop]) hraw
@@ -347,33 +451,34 @@ theorem append_single_assoc (P : Flds) (tag : Bytes) (pres : Pres) (shape : Shap
 
 mutual
   theorem decode_encode (X : Ext) : ∀ (s : Sch) (v : Val), s.wf = true → Fits X s v →
-      ∀ (n : Bytes) (rest : List Ev), decode X s (encode s v ++ .stop n :: rest) = .ok (v, .stop n :: rest)
+      ∀ (n : Bytes) (rest : List Ev),
+        decode X s (encAttrs s v) (encode s v ++ .stop n :: rest) = .ok (v, .stop n :: rest)
     | .str, .str b, _, hfit, n, rest => by
       simp only [Fits] at hfit
       simp only [encode]
-      exact decode_scalar_text X .str _ _ n rest rfl (escapeText_noCr _) (by simp [decodeScalarText, decodeStr_escapeText hfit, Except.map])
+      exact decode_scalar_text X .str _ _ _ n rest rfl (escapeText_noCr _) (by simp [decodeScalarText, decodeStr_escapeText hfit, Except.map])
     | .enm, .str b, _, hfit, n, rest => by
       simp only [Fits] at hfit
       simp only [encode]
-      exact decode_scalar_text X .enm _ _ n rest rfl (escapeText_noCr _) (by simp [decodeScalarText, decodeStr_escapeText hfit, Except.map])
+      exact decode_scalar_text X .enm _ _ _ n rest rfl (escapeText_noCr _) (by simp [decodeScalarText, decodeStr_escapeText hfit, Except.map])
     | .i32, .int i, _, hfit, n, rest => by
       simp only [Fits] at hfit
       simp only [encode]
-      exact decode_scalar_text X .i32 _ _ n rest rfl (escapeText_noCr _)
+      exact decode_scalar_text X .i32 _ _ _ n rest rfl (escapeText_noCr _)
         (by simp [decodeScalarText, escapeText_fmtInt, parseInt_fmtInt hfit.1 hfit.2])
     | .i64, .int i, _, hfit, n, rest => by
       simp only [Fits] at hfit
       simp only [encode]
-      exact decode_scalar_text X .i64 _ _ n rest rfl (escapeText_noCr _)
+      exact decode_scalar_text X .i64 _ _ _ n rest rfl (escapeText_noCr _)
         (by simp [decodeScalarText, escapeText_fmtInt, parseInt_fmtInt hfit.1 hfit.2])
     | .bool, .bool b, _, _, n, rest => by
       simp only [encode]
-      exact decode_scalar_text X .bool _ _ n rest rfl (escapeText_noCr _)
+      exact decode_scalar_text X .bool _ _ _ n rest rfl (escapeText_noCr _)
         (by simp [decodeScalarText, escapeText_fmtBool, parseBool_fmtBool])
     | .ts f, .ts t, _, hfit, n, rest => by
       simp only [Fits] at hfit
       simp only [encode]
-      exact decode_scalar_text X (.ts f) _ _ n rest rfl (escapeText_noCr _)
+      exact decode_scalar_text X (.ts f) _ _ _ n rest rfl (escapeText_noCr _)
         (by simp [decodeScalarText, hfit.2.2, hfit.2.1, hfit.1])
     | .struct fs, .struct vs, hwf, hfit, n, rest => by
       simp only [Fits] at hfit
@@ -389,17 +494,19 @@ mutual
           | cons _ _ => simp [FitsFields] at hfit
         | cons _ _ _ _ _ => simp [Flds.isNil] at hnil
       | false =>
+        have hinit := initAcc_written X [] (fun _ h => by simp at h) fs vs hwf.2 hwf.1 fs .nil vs [] rfl rfl rfl hfit
+        simp only [attrsOf, List.flatMap_nil, List.nil_append] at hinit
         have hloop := fields_roundtrip X fs .nil [] vs ((encodeFields fs vs ++ .stop n :: rest).length + 1) n rest
           (by simpa [Flds.append] using hwf.1) hwf.2 hfit rfl (by simp; omega)
         simp only [Flds.append, List.nil_append] at hloop
-        simp only [Bool.false_eq_true, if_false, hloop, finish_fits X fs vs hfit]
+        simp only [Bool.false_eq_true, if_false, encAttrs, hinit, hloop, finish_fits X fs vs hfit]
     | .union vars, .union tag v, hwf, hfit, n, rest => by
       simp only [Fits] at hfit
       simp only [Sch.wf, Bool.and_eq_true] at hwf
       simp only [encode]
-      obtain ⟨inner, henc, hdec⟩ := variant_roundtrip X vars tag v hwf.2 hfit
+      obtain ⟨a, inner, henc, hdec⟩ := variant_roundtrip X vars tag v hwf.2 hfit
       rw [henc, decode.eq_2]
-      simp only [elem, List.cons_append, List.append_assoc, List.nil_append, skipText_start]
+      simp only [elemA, List.cons_append, List.append_assoc, List.nil_append, skipText_start]
       simp [hdec, expectEnd_stop]
     | .str, .int _, _, h, _, _ | .str, .bool _, _, h, _, _ | .str, .ts _, _, h, _, _ | .str, .struct _, _, h, _, _
     | .str, .union _ _, _, h, _, _ => by simp [Fits] at h
@@ -418,19 +525,20 @@ mutual
     | .union _, .str _, _, h, _, _ | .union _, .int _, _, h, _, _ | .union _, .bool _, _, h, _, _
     | .union _, .ts _, _, h, _, _ | .union _, .struct _, _, h, _, _ => by simp [Fits] at h
   /-- the `for_each_element` loop of a struct deserialiser over what the struct serialiser wrote, started in the
-  middle: the members `P` are done (their slots are `A`), the members `S` are still to come -/
+  middle: the members `P` are done (their slots are `A`), the members `S` are still to come (those bound to an
+  attribute are read already: `initSlots`) -/
   theorem fields_roundtrip (X : Ext) : ∀ (S : Flds) (P : Flds) (A fvs : List FVal) (fuel : Nat) (n : Bytes)
       (tail : List Ev), distinct (P.append S).tags = true → S.wf = true → FitsFields X S fvs →
       A.length = P.length → (encodeFields S fvs).length < fuel →
-      forEach (fun name evs acc => decodeField X (P.append S) name evs acc) fuel
-        (encodeFields S fvs ++ .stop n :: tail) (A ++ S.emptyAcc) = .ok (A ++ fvs, .stop n :: tail)
+      forEach (fun name a evs acc => decodeField X (P.append S) name a evs acc) fuel
+        (encodeFields S fvs ++ .stop n :: tail) (A ++ initSlots S fvs) = .ok (A ++ fvs, .stop n :: tail)
     | .nil, P, A, fvs, fuel, n, tail, _, _, hfit, _, hfuel => by
       cases fvs with
       | cons _ _ => simp [FitsFields] at hfit
       | nil =>
         cases fuel with
         | zero => simp at hfuel
-        | succ k => simp [encodeFields, Flds.emptyAcc, forEach_stop]
+        | succ k => simp [encodeFields, initSlots, forEach_stop]
     | .cons tag pres shape s Rf, P, A, [], fuel, n, tail, _, _, hfit, _, _ => by simp [FitsFields] at hfit
     | .cons tag pres shape s Rf, P, A, fv :: fvs', fuel, n, tail, hd, hwf, hfit, hl, hfuel => by
       simp only [FitsFields] at hfit
@@ -441,20 +549,21 @@ mutual
       -- the loop over the remaining members, with this member done
       have hP := append_single_assoc P tag pres shape s Rf
       have hrest : ∀ (slot : FVal) (fuel' : Nat), (encodeFields Rf fvs').length < fuel' →
-          forEach (fun name evs acc => decodeField X (P.append (.cons tag pres shape s Rf)) name evs acc) fuel'
-            (encodeFields Rf fvs' ++ .stop n :: tail) (A ++ slot :: Rf.emptyAcc)
+          forEach (fun name a evs acc => decodeField X (P.append (.cons tag pres shape s Rf)) name a evs acc) fuel'
+            (encodeFields Rf fvs' ++ .stop n :: tail) (A ++ slot :: initSlots Rf fvs')
             = .ok (A ++ slot :: fvs', .stop n :: tail) := by
         intro slot fuel' hf'
         have := fields_roundtrip X Rf (P.append (.cons tag pres shape s .nil)) (A ++ [slot]) fvs' fuel' n tail
-          (by rw [hP]; exact hd) hwf.2 hfit.2 (by simp [Flds.length_append, Flds.length, hl]) hf'
+          (by rw [hP]; exact hd) hwf.2.1 hfit.2 (by simp [Flds.length_append, Flds.length, hl]) hf'
         rw [hP] at this
         simpa using this
       rw [encodeFields_cons] at hfuel ⊢
-      simp only [Flds.emptyAcc, List.append_assoc]
+      simp only [initSlots, List.append_assoc]
       cases fv with
       | absent =>
         have : encField tag shape s .absent = [] := by cases shape <;> rfl
         rw [this] at hfuel ⊢
+        rw [initSlot_absent]
         exact hrest .absent fuel (by simpa using hfuel)
       | one v =>
         cases shape with
@@ -463,15 +572,21 @@ mutual
           cases fuel with
           | zero => simp at hfuel
           | succ k =>
-            simp only [encField, elem, List.cons_append, List.append_assoc, List.nil_append] at hfuel ⊢
-            rw [forEach_step _ k tag [] _ _ _ _
+            simp only [encField, elemA, List.cons_append, List.append_assoc, List.nil_append] at hfuel ⊢
+            rw [forEach_step _ k tag (encAttrs s v) _ _ _ _
               (decodeField_at X P A htag hl (decodeField_single_ok X (decode_encode X s v hwf.1 hv tag _)))]
             exact hrest (.one v) k (by simp at hfuel; omega)
         | wrapped m => simp at hfit
         | flat => simp at hfit
+        | attr =>
+          -- no element: the attribute was read by the `let` block
+          have : encField tag .attr s (.one v) = [] := rfl
+          rw [this] at hfuel ⊢
+          exact hrest (.one v) fuel (by simpa using hfuel)
       | many vs =>
         cases shape with
         | single => simp at hfit
+        | attr => simp at hfit
         | wrapped m =>
           have hv : ∀ v ∈ vs, Fits X s v := by simpa using hfit.1
           cases fuel with
@@ -480,9 +595,9 @@ mutual
             simp only [encField, elem, List.cons_append, List.append_assoc, List.nil_append] at hfuel ⊢
             have hlist := forEach_listItem X s m tag (encodeFields Rf fvs' ++ .stop n :: tail) vs
               (fun v hvm n' rest' => decode_encode X s v hwf.1 (hv v hvm) n' rest') []
-              (((vs.flatMap fun v => elem m (encode s v)) ++ .stop tag :: (encodeFields Rf fvs' ++ .stop n :: tail)).length + 1)
+              (((vs.flatMap fun v => elemA m (encAttrs s v) (encode s v)) ++ .stop tag :: (encodeFields Rf fvs' ++ .stop n :: tail)).length + 1)
               (by simp; omega)
-            simp only [elem, List.cons_append, List.nil_append] at hlist
+            simp only [List.nil_append] at hlist
             rw [forEach_step _ k tag [] _ _ _ _
               (decodeField_at X P A htag hl (decodeField_wrapped_ok X hlist))]
             exact hrest (.many vs) k (by simp at hfuel; omega)
@@ -493,7 +608,7 @@ mutual
             have := hfit.1; simp at this; exact this.2
           simp only [encField] at hfuel ⊢
           have h2 := flatMap_elem_length tag s vs
-          rw [forEach_flat _ s tag A Rf.emptyAcc _ vs
+          rw [forEach_flat _ s tag A (initSlots Rf fvs') _ vs
             (fun v hvm slot rest' =>
               decodeField_at X P A htag hl (decodeField_flat_ok X (decode_encode X s v hwf.1 (hv v hvm) tag rest')))
             .absent fuel (by simp only [List.length_append] at hfuel; omega)]
@@ -505,8 +620,8 @@ mutual
   /-- the variant a union value was written as is the variant it is read as -/
   theorem variant_roundtrip (X : Ext) : ∀ (vars : Vars) (tag : Bytes) (v : Val), vars.wf = true →
       FitsVariant X vars tag v →
-      ∃ inner, encodeVariant vars tag v = elem tag inner ∧
-        ∀ more, decodeVariant X vars tag (inner ++ .stop tag :: more) = .ok (.union tag v, .stop tag :: more)
+      ∃ a inner, encodeVariant vars tag v = elemA tag a inner ∧
+        ∀ more, decodeVariant X vars tag a (inner ++ .stop tag :: more) = .ok (.union tag v, .stop tag :: more)
     | .nil, _, _, _, hfit => by simp [FitsVariant] at hfit
     | .cons t s rest, tag, v, hwf, hfit => by
       simp only [Vars.wf, Bool.and_eq_true] at hwf
@@ -514,12 +629,12 @@ mutual
       by_cases h : t = tag
       · subst h
         simp only [if_true] at hfit
-        refine ⟨encode s v, by simp [encodeVariant], ?_⟩
+        refine ⟨encAttrs s v, encode s v, by simp [encodeVariant], ?_⟩
         intro more
         simp [decodeVariant, decode_encode X s v hwf.1 hfit t more]
       · simp only [if_neg h] at hfit
-        obtain ⟨inner, henc, hdec⟩ := variant_roundtrip X rest tag v hwf.2 hfit
-        refine ⟨inner, by simp [encodeVariant, h, henc], ?_⟩
+        obtain ⟨a, inner, henc, hdec⟩ := variant_roundtrip X rest tag v hwf.2 hfit
+        refine ⟨a, inner, by simp [encodeVariant, h, henc], ?_⟩
         intro more
         have h' : tag ≠ t := fun e => h e.symm
         simp [decodeVariant, h', hdec more]
@@ -530,21 +645,117 @@ end
 
 theorem expectEof_nil : expectEof [] = .ok () := by simp [expectEof, skipText]
 
+/-- what is not a struct never looks at the attributes -/
+theorem decode_attrs_irrel (X : Ext) : ∀ (s : Sch) (a a' : Bytes) (evs : List Ev),
+    (∀ fs, s ≠ .struct fs) → decode X s a evs = decode X s a' evs
+  | .struct fs, _, _, _, h => absurd rfl (h fs)
+  | .union vs, a, a', evs, _ => by rw [decode.eq_2, decode.eq_2]
+  | .str, a, a', evs, _ => by
+    rw [decode.eq_3 X _ _ _ (by intros; contradiction) (by intros; contradiction),
+      decode.eq_3 X _ _ _ (by intros; contradiction) (by intros; contradiction)]
+  | .enm, a, a', evs, _ => by
+    rw [decode.eq_3 X _ _ _ (by intros; contradiction) (by intros; contradiction),
+      decode.eq_3 X _ _ _ (by intros; contradiction) (by intros; contradiction)]
+  | .i32, a, a', evs, _ => by
+    rw [decode.eq_3 X _ _ _ (by intros; contradiction) (by intros; contradiction),
+      decode.eq_3 X _ _ _ (by intros; contradiction) (by intros; contradiction)]
+  | .i64, a, a', evs, _ => by
+    rw [decode.eq_3 X _ _ _ (by intros; contradiction) (by intros; contradiction),
+      decode.eq_3 X _ _ _ (by intros; contradiction) (by intros; contradiction)]
+  | .bool, a, a', evs, _ => by
+    rw [decode.eq_3 X _ _ _ (by intros; contradiction) (by intros; contradiction),
+      decode.eq_3 X _ _ _ (by intros; contradiction) (by intros; contradiction)]
+  | .ts _, a, a', evs, _ => by
+    rw [decode.eq_3 X _ _ _ (by intros; contradiction) (by intros; contradiction),
+      decode.eq_3 X _ _ _ (by intros; contradiction) (by intros; contradiction)]
+
+/-- the round trip of a content whose start tag also carries the `xmlns` attribute of a root
+(`content_with_ns`): `d.attribute` finds the attributes of the value behind it -/
+theorem decode_encode_ns (X : Ext) (ps0 : List (Bytes × Bytes)) (h0 : NsPairs ps0) (s : Sch) (v : Val)
+    (hwf : s.wf = true) (hfit : Fits X s v) (n : Bytes) (rest : List Ev) :
+    decode X s (attrsOf ps0 ++ encAttrs s v) (encode s v ++ .stop n :: rest) = .ok (v, .stop n :: rest) := by
+  cases s with
+  | struct fs =>
+    cases v with
+    | struct vs =>
+      simp only [Fits] at hfit
+      simp only [Sch.wf, Bool.and_eq_true] at hwf
+      simp only [encode, encAttrs_struct]
+      rw [decode.eq_1]
+      cases hnil : fs.isNil with
+      | true =>
+        cases fs with
+        | nil =>
+          cases vs with
+          | nil => simp [encodeFields]
+          | cons _ _ => simp [FitsFields] at hfit
+        | cons _ _ _ _ _ => simp [Flds.isNil] at hnil
+      | false =>
+        have hinit := initAcc_written X ps0 h0 fs vs hwf.2 hwf.1 fs .nil vs [] rfl rfl rfl hfit
+        have hloop := fields_roundtrip X fs .nil [] vs ((encodeFields fs vs ++ .stop n :: rest).length + 1) n rest
+          (by simpa [Flds.append] using hwf.1) hwf.2 hfit rfl (by simp; omega)
+        simp only [Flds.append, List.nil_append] at hloop
+        simp only [Bool.false_eq_true, if_false, hinit, hloop, finish_fits X fs vs hfit]
+    | str _ => simp [Fits] at hfit
+    | int _ => simp [Fits] at hfit
+    | bool _ => simp [Fits] at hfit
+    | ts _ => simp [Fits] at hfit
+    | union _ _ => simp [Fits] at hfit
+  | union vs =>
+    rw [decode_attrs_irrel X (.union vs) _ (encAttrs (.union vs) v) _ (by intro fs h; cases h)]
+    exact decode_encode X _ v hwf hfit n rest
+  | str =>
+    rw [decode_attrs_irrel X .str _ (encAttrs .str v) _ (by intro fs h; cases h)]
+    exact decode_encode X _ v hwf hfit n rest
+  | enm =>
+    rw [decode_attrs_irrel X .enm _ (encAttrs .enm v) _ (by intro fs h; cases h)]
+    exact decode_encode X _ v hwf hfit n rest
+  | i32 =>
+    rw [decode_attrs_irrel X .i32 _ (encAttrs .i32 v) _ (by intro fs h; cases h)]
+    exact decode_encode X _ v hwf hfit n rest
+  | i64 =>
+    rw [decode_attrs_irrel X .i64 _ (encAttrs .i64 v) _ (by intro fs h; cases h)]
+    exact decode_encode X _ v hwf hfit n rest
+  | bool =>
+    rw [decode_attrs_irrel X .bool _ (encAttrs .bool v) _ (by intro fs h; cases h)]
+    exact decode_encode X _ v hwf hfit n rest
+  | ts f =>
+    rw [decode_attrs_irrel X (.ts f) _ (encAttrs (.ts f) v) _ (by intro fs h; cases h)]
+    exact decode_encode X _ v hwf hfit n rest
+
+theorem nsPairs_ns (ns : Option Bytes) : NsPairs (nsPairsOf ns) := by
+  cases ns with
+  | none => intro kv h; simp [nsPairsOf] at h
+  | some uri =>
+    intro kv h
+    simp only [nsPairsOf, List.mem_singleton] at h
+    subst h
+    exact ⟨⟨(by decide : keyPlain xmlnsKey = true), fun c hc => (escape_no uri c hc).2⟩, rfl⟩
+
 /-- `T::deserialize` + `expect_eof` reads back what `T::serialize` wrote (generated roots) -/
 theorem decodeDoc_encodeDoc_named (X : Ext) (tag : Bytes) (ns : Option Bytes) (s : Sch) (v : Val)
     (hwf : s.wf = true) (hfit : Fits X s v) :
     decodeDoc X (.named tag) s (encodeDoc (.named tag ns) s v) = .ok v := by
   simp only [decodeDoc, encodeDoc, List.cons_append, expectStart_start]
-  simp [decode_encode X s v hwf hfit tag [], expectEnd_stop, expectEof_nil]
+  rw [nsAttr_eq, decode_encode_ns X _ (nsPairs_ns ns) s v hwf hfit tag []]
+  simp [expectEnd_stop, expectEof_nil]
 
 /-- the two-level wrapper of `AssumeRoleOutput` (xml/mod.rs) -/
 theorem decodeDoc_encodeDoc_nested (X : Ext) (outer inner : Bytes) (ns : Option Bytes) (s : Sch) (v : Val)
     (hwf : s.wf = true) (hfit : Fits X s v) :
     decodeDoc X (.nested outer inner) s (encodeDoc (.nested outer inner ns) s v) = .ok v := by
-  simp only [decodeDoc, encodeDoc, elem, List.cons_append, List.append_assoc, List.nil_append, expectStart_start]
+  simp only [decodeDoc, encodeDoc, elemA, List.cons_append, List.append_assoc, List.nil_append, expectStart_start]
   simp [decode_encode X s v hwf hfit inner [.stop outer], expectEnd_stop, expectEof_nil]
 
 /-! ### the serialiser never looks at what distinguishes `dflt` from `req` -/
+
+theorem attrPairs_serView : ∀ (fs : Flds) (vs : List FVal), attrPairs fs.serView vs = attrPairs fs vs
+  | .nil, _ => by simp [Flds.serView, attrPairs]
+  | .cons t p sh s r, [] => by simp [Flds.serView, attrPairs]
+  | .cons t p sh s r, fv :: fvs => by simp [Flds.serView, attrPairs, attrPairs_serView r fvs]
+
+theorem encAttrs_serView (s : Sch) (v : Val) : encAttrs s.serView v = encAttrs s v := by
+  cases s <;> cases v <;> simp [Sch.serView, encAttrs, attrPairs_serView]
 
 mutual
   theorem encode_serView : ∀ (s : Sch) (v : Val), encode s.serView v = encode s v
@@ -562,12 +773,12 @@ mutual
       simp only [Flds.serView]
       rw [encodeFields_cons, encodeFields_cons, encodeFields_serView r fvs]
       congr 1
-      cases sh <;> cases fv <;> simp [encField, encode_serView s]
+      cases sh <;> cases fv <;> simp [encField, encode_serView s, encAttrs_serView s]
   theorem encodeVariant_serView : ∀ (vars : Vars) (tag : Bytes) (v : Val),
       encodeVariant vars.serView tag v = encodeVariant vars tag v
     | .nil, _, _ => by simp [Vars.serView, encodeVariant]
     | .cons t s r, tag, v => by
-      simp [Vars.serView, encodeVariant, encode_serView s v, encodeVariant_serView r tag v]
+      simp [Vars.serView, encodeVariant, encode_serView s v, encAttrs_serView s v, encodeVariant_serView r tag v]
 end
 
 end S3V.Xml
